@@ -188,6 +188,7 @@ func (e *Exec) assumeFreshRef(ref Term, st *State) {
 		c.assume(c.not(c.eq(ref, o)), "fresh ref distinct")
 	}
 	e.refs = append(e.refs, ref)
+	e.fresh = append(e.fresh, ref)
 	e.trusted["freshly allocated objects are distinct from parameters and earlier allocations (not from pointers loaded out of memory)"] = true
 }
 
@@ -257,6 +258,14 @@ func (e *Exec) boundsCheck(i64, ln Term, reach Term, pos token.Pos, label string
 }
 
 func (e *Exec) nilCheck(p Val, reach Term, pos token.Pos, what string) Term {
+	if p.Addr != nil && p.Nil.S != "" && p.Nil.S != "false" {
+		g := e.c.not(p.Nil)
+		if e.nilcheck || e.safety {
+			e.oblige("nil", e.srcText(pos, token.NoPos), reach, g, pos)
+		}
+		e.c.assume(e.c.implies(reach, g), "")
+		return reach
+	}
 	if !e.nilcheck || p.Addr != nil && (p.Addr.Kind != RHeap || len(p.Addr.Path) > 0) {
 		return reach
 	}
@@ -316,8 +325,11 @@ func (e *Exec) binop(op token.Token, a, b Val, rt types.Type, reach Term, pos to
 			}
 		} else {
 			if _, isPtr := a.Typ.Underlying().(*types.Pointer); isPtr && (a.Addr != nil || b.Addr != nil) {
-				ra, rb := e.refOfPtr(a), e.refOfPtr(b)
-				eqs = append(eqs, c.eq(ra, rb))
+				eqs = append(eqs, e.ptrEq(a, b))
+			} else if isNilLit(a) && b.Addr != nil {
+				eqs = append(eqs, e.ptrEq(b, a))
+			} else if isNilLit(b) && a.Addr != nil {
+				eqs = append(eqs, e.ptrEq(a, b))
 			} else {
 				for i := range a.L {
 					x, y := a.L[i], b.L[i]
@@ -650,4 +662,50 @@ func (e *Exec) sliceOp(x *ssa.Slice, st *State, reach Term) (Val, Term) {
 	}
 	e.fail("slice of %s", base.Typ)
 	return Val{}, reach
+}
+
+func isNilLit(v Val) bool { return v.Addr == nil && len(v.L) == 1 && v.L[0].S == "nil_ref" }
+
+// ptrEq: equality of two pointer values, at least one of which has a structural address
+func (e *Exec) ptrEq(a, b Val) Term {
+	c := e.c
+	nilOf := func(v Val) Term {
+		if v.Addr != nil {
+			if v.Addr.Kind == RHeap && len(v.Addr.Path) == 0 {
+				return c.eq(v.Addr.Ref, tNil)
+			}
+			if v.Nil.S == "" {
+				return tFalse
+			}
+			return v.Nil
+		}
+		return c.eq(v.T(), tNil)
+	}
+	if isNilLit(b) {
+		return nilOf(a)
+	}
+	if isNilLit(a) {
+		return nilOf(b)
+	}
+	if a.Addr != nil && b.Addr != nil {
+		if a.Addr.Kind != b.Addr.Kind || a.Addr.Key != b.Addr.Key || len(a.Addr.Path) != len(b.Addr.Path) {
+			return c.and(nilOf(a), nilOf(b))
+		}
+		conj := []Term{}
+		if a.Addr.Kind == RHeap {
+			conj = append(conj, c.eq(a.Addr.Ref, b.Addr.Ref))
+		}
+		for i := range a.Addr.Path {
+			pa, pb := a.Addr.Path[i], b.Addr.Path[i]
+			if pa.Field != pb.Field {
+				return c.and(nilOf(a), nilOf(b))
+			}
+			if pa.Field < 0 {
+				conj = append(conj, c.eq(pa.Idx, pb.Idx))
+			}
+		}
+		same := c.and(conj...)
+		return c.or(c.and(nilOf(a), nilOf(b)), c.and(c.not(nilOf(a)), c.not(nilOf(b)), same))
+	}
+	return c.eq(e.refOfPtr(a), e.refOfPtr(b))
 }
